@@ -983,7 +983,12 @@ def _get_gp_training_options(
         - eff_starting_points
     )
     f = lambda x_: a * x_**3 + b * x**2 + c * x + d
-    init_N = max(round(f(x)), options["gp_train_n_init_final"])
+    f_x = f(x)
+    if np.isfinite(f_x):
+        init_N = max(round(f_x), options["gp_train_n_init_final"])
+    else:
+        # budget (or n_train_max) equal to the initial design size: 0/0 above
+        init_N = options["gp_train_n_init_final"]
     if (
         iteration >= 0
     ):  # the first time is called when the gp is initialized, and iteration is -1
